@@ -35,8 +35,9 @@ CFG = Cfg(max_depth=3, theories={"bool", "int", "real", "bv", "arr", "uf", "quan
 
 FAIL_KINDS = ["construct", "substitute", "cnf-quantified", "qelim-nonbool", "size-measure", "get-symbol", "hr-parse",
               "smtlib-parse", "array-nonconst-key", "fi-free-vars", "custom-operator", "model-text", "malformed-declaration",
-              "with-block-raises", "simplify-custom-walker"]
+              "with-block-raises", "generic-solver-redefinition", "simplify-custom-walker"]
 DECL_NAME = "c15 declared name"
+GENERIC_NAME = "c15-generic-solver"
 
 
 def _register_custom_operator():
@@ -66,6 +67,14 @@ class World(object):
             self.parser = SmtLibParser(self.env)
         from pysmt.smtlib.printers import SmtDagPrinter
         self.dagprinter = SmtDagPrinter(StringIO())          # a long-lived printer object
+        self.generic = False
+
+    def ensure_generic_solver(self):
+        """(lazily: creating a Factory probes for every solver wrapper)"""
+        if not self.generic:
+            from pysmt.logics import QF_UFLIRA
+            self.env.factory.add_generic_solver(GENERIC_NAME, ["/opt/first/solver", "-in"], [QF_UFLIRA])
+            self.generic = True
         self.last_exc = None
 
     def dag_print(self, f):
@@ -153,6 +162,10 @@ def do_fail(world, fail):
                     world.parser.get_assignment_list(StringIO(text))
             elif kind == "malformed-declaration":
                 world.parser.get_script(StringIO(fail[1]))
+            elif kind == "generic-solver-redefinition":
+                from pysmt.logics import QF_BV
+                world.ensure_generic_solver()
+                env.factory.add_generic_solver(GENERIC_NAME, ["/opt/second/solver", "--smt2"], [QF_BV])     # the name is taken
             elif kind == "with-block-raises":
                 # the exception leaves a `with Environment():` block (the failing call is what the block does)
                 inner = Environment()
@@ -260,6 +273,8 @@ def gen_fail(g, probe, rel):
             "(declare-fun |%s| (Int Undeclared) Int)", "(declare-const |%s| Int) (declare-const |%s| Real)"][:7]) % DECL_NAME)
     if kind == "with-block-raises":
         return ("with-block-raises",)
+    if kind == "generic-solver-redefinition":
+        return ("generic-solver-redefinition",)
     if kind == "custom-operator":
         bf = f if t == BOOL else (probe if reftype_or_none(probe) == BOOL else const(BOOL, True))
         return ("custom-operator", g.choice(CUSTOM_SERVICES), bf)
@@ -335,6 +350,22 @@ def _check_history(run, probe, history, probes, ptexts):
                      dict(case, failing=call),
                      "%s on %s gives %r after failing calls %s, %r on the twin that never saw them" % (
                          call[0], show(call[1], 200), _brief(A.env, a), sorted(set(kinds)), _brief(Bw.env, b)))
+    # what the factory knows about its generic solver
+    outs = []
+    for W in ((A, Bw) if A.generic else ()):
+        try:
+            W.ensure_generic_solver()
+            info = W.env.factory.get_generic_solver_info(GENERIC_NAME)
+            outs.append(repr((list(info[0]), [str(l) for l in info[1]],
+                              sorted(n for n in W.env.factory.all_solvers() if "c15" in n),
+                              W.env.factory.preferences["Solver"].count(GENERIC_NAME) > 0)))
+        except Exception as e:
+            outs.append("raised " + type(e).__name__)
+    if outs:
+        run.cls("probe:factory-generic-solver")
+    if outs and outs[0] != outs[1]:
+        run.fail({"subcheck": "trace:result-differs", "service": "factory", "after": sorted(set(kinds))[0]}, case,
+                 "generic solver info: %s after failing calls %s, %s on the twin" % (outs[0], sorted(set(kinds)), outs[1]))
     # a name that only malformed declarations mentioned is still undeclared
     outs = []
     for W in (A, Bw):
@@ -443,6 +474,8 @@ def check_solver_history(run, rnd):
     with env:
         m = env.formula_manager
         wide = m.BVULT(m.Symbol("wide8", env.type_manager.BVType(8)), m.BV(3, 8))      # the backend gives up on it
+        dies = m.Or(m.Symbol("the solver process dies"), m.Symbol("p0"))                  # solve() raises another error
+        nonbool = m.Plus(m.Symbol("i0", env.type_manager.INT()), m.Int(1))                               # add_assertion rejects it
         A, Bs = BruteSolver(env), BruteSolver(env)
         depth = 0
         hist = []
@@ -479,16 +512,33 @@ def check_solver_history(run, rnd):
                                  "after %s: is_sat gives %r, %r on the twin that never made the failing calls" % (hist, outs[0], outs[1]))
                         return
                 else:
-                    how = rnd.choice(["is_sat", "is_valid", "is_unsat", "solve-assumptions"])
-                    try:
+                    how = rnd.choice(["is_sat", "is_valid", "is_unsat", "solve-assumptions", "add_assertion"])
+                    bad = rnd.choice([wide, dies, nonbool]) if how != "add_assertion" else nonbool
+                    which = "unknown" if bad is wide else "other-error" if bad is dies else "rejected-assertion"
+
+                    def call(sv):
                         if how == "solve-assumptions":
-                            A.solve([wide, m.Or(wide, m.Symbol("p0"))])
-                        else:
-                            getattr(A, how)(wide)
+                            return sv.solve([bad, m.Or(bad, m.Symbol("p0"))] if bad is not nonbool else [wide])
+                        return getattr(sv, how)(bad)
+                    if how == "add_assertion":
+                        A.assertions, Bs.assertions      # (the lazy pop of an earlier one-shot query happens now, on both)
+                    before = (A.last_command, A.last_result)
+                    try:
+                        call(A)
+                    except BackendError:
+                        raise
                     except Exception:
                         nfail += 1
-                        hist.append("!" + how)
+                        hist.append("!%s:%s" % (how, which))
+                        run.cls("injected:solver-" + which)
+                        # a rejected assertion is not a command the solver executed: its status is what it was
+                        # (a solve that fails legitimately reports itself as the last command)
+                        if how == "add_assertion" and (A.last_command, A.last_result) != before:
+                            run.fail({"subcheck": "trace:solver-status-differs"}, {"history": list(hist)},
+                                     "after %s: the rejected add_assertion changed last_command / last_result from %r to %r" % (
+                                         hist, before, (A.last_command, A.last_result)))
                     else:
+                        call(Bs)            # it did not fail: an ordinary call, the twin makes it too
                         hist.append(how + "(did not fail)")
             la, lb = list(A.assertions), list(Bs.assertions)
             da, db = len(A.backend), len(Bs.backend)
@@ -506,8 +556,6 @@ def check_solver_history(run, rnd):
             return
         run.case(key=("solver", tuple(hist)), nontrivial=nfail > 0)
         run.cls("solver-history")
-        if nfail:
-            run.cls("injected:solver-unknown")
         if (la, da, ba, va) != (lb, db, bb, vb):
             run.fail({"subcheck": "trace:solver-state-differs"}, {"history": hist},
                      "after %s: assertions %s (backend %s, depth %d, verdict %r); the twin that never made the failing calls "
